@@ -11,5 +11,7 @@ import (
 func main() {
 	verifio.Main(map[string]verifio.Runner{
 		"arb": func(f []string) string { return k8s.VerifArb(verifio.KV(f)) },
+		"polst": func(f []string) string { return k8s.VerifPolicyStatus(verifio.KV(f)) },
+		"cls": func(f []string) string { return k8s.VerifClass(verifio.KV(f)) },
 	})
 }
